@@ -225,9 +225,11 @@ example : (pickState (pureAsk fun pat _ => pat == 2) [] [(.off, 1), (.on, 2), (.
     status capture took part in the match, the action's argument list is rewritten by `writeState`: the cells whose node
     is that plug's node receive the chosen state and the captured text, every other cell is left exactly as it was, and
     no other argument list is touched.  If there is no name, no status capture, or the name is not a mapped plug of this
-    device, nothing at all is written.  The statement always finishes and never changes the action. -/
+    device, nothing at all is written.  The statement always finishes and never changes the action.  (No hypothesis on
+    `xm_used` any more: since the repair of `xregex_match_sub_strdup` a statement that runs before any `expect` finds no
+    capture — `subOf` is `none` — and so falls under "nothing is written": `C07_set_before_expect_harmless`.) -/
 theorem C08_setplugstate_writes (d : Dev) (a : Action) (o : Oracle) (e : ExecCtx) (lit : Option Bytes) (pm sm : Int)
-    (is : List (PState × Nat)) (hx : d.xmUsed = true) :
+    (is : List (PState × Nat)) :
     (∀ n, chosenName d (some n) pm (ctxName e.plugs) = some n) ∧
     (∀ n, subOf d pm = some n → chosenName d none pm (ctxName e.plugs) = some n) ∧
     (subOf d pm = none → chosenName d none pm (ctxName e.plugs) = ctxName e.plugs) ∧
@@ -242,12 +244,12 @@ theorem C08_setplugstate_writes (d : Dev) (a : Action) (o : Oracle) (e : ExecCtx
       stmtSetplugstate d a o e lit pm sm is = ⟨d, a, o, [], true⟩) ∧
     (stmtSetplugstate d a o e lit pm sm is).act = a ∧ (stmtSetplugstate d a o e lit pm sm is).finished = true := by
   rw [stmtSetplugstate_eq]
-  refine ⟨fun _ => rfl, ?_, ?_, ?_, setplugstateCore_nothing d a o _ lit pm sm is hx,
+  refine ⟨fun _ => rfl, ?_, ?_, ?_, setplugstateCore_nothing d a o _ lit pm sm is,
     (setplugstateCore_frame d a o _ lit pm sm is).1, (setplugstateCore_frame d a o _ lit pm sm is).2⟩
   · intro n h; simp [chosenName, h]
   · intro h; simp [chosenName, h]
   · intro pn s plug hn hs hp
-    have h := (setplugstateCore_writes d a o _ lit pm sm is pn s plug hx hn hs hp).1
+    have h := (setplugstateCore_writes d a o _ lit pm sm is pn s plug hn hs hp).1
     refine ⟨h, ?_, ?_⟩
     · rw [h, getArgs_setArgs]
     · intro id hid; rw [h, getArgs_setArgs_ne _ _ _ _ hid]
@@ -268,8 +270,7 @@ theorem C08_findPlug (d : Dev) (pn : Bytes) (p : Plug) :
 
 /-- `setresult`: plug by capture only; same cell discipline, with the result of the first matching interpretation; a
     result other than `success` for a node of this action is also reported to the client as a diagnostic -/
-theorem C08_setresult_writes (d : Dev) (a : Action) (o : Oracle) (pm sm : Int) (is : List (PResult × Nat))
-    (hx : d.xmUsed = true) :
+theorem C08_setresult_writes (d : Dev) (a : Action) (o : Oracle) (pm sm : Int) (is : List (PResult × Nat)) :
     (∀ pn s plug, subOf d pm = some pn → subOf d sm = some s → findPlug d pn = some plug →
       (stmtSetresult d a o pm sm is).dev =
         setArgs d a.arglist (writeResult (getArgs d a.arglist) (plug.node.getD []) (pickResult askRx s is o []).2.1 s) ∧
@@ -278,10 +279,10 @@ theorem C08_setresult_writes (d : Dev) (a : Action) (o : Oracle) (pm sm : Int) (
     ((subOf d pm = none ∨ subOf d sm = none ∨ ∃ pn, subOf d pm = some pn ∧ findPlug d pn = none) →
       stmtSetresult d a o pm sm is = ⟨d, a, o, [], true⟩) ∧
     (stmtSetresult d a o pm sm is).act = a ∧ (stmtSetresult d a o pm sm is).finished = true := by
-  refine ⟨?_, stmtSetresult_nothing d a o pm sm is hx, (stmtSetresult_frame d a o pm sm is).1,
+  refine ⟨?_, stmtSetresult_nothing d a o pm sm is, (stmtSetresult_frame d a o pm sm is).1,
     (stmtSetresult_frame d a o pm sm is).2⟩
   intro pn s plug hn hs hp
-  have h := stmtSetresult_writes d a o pm sm is pn s plug hx hn hs hp
+  have h := stmtSetresult_writes d a o pm sm is pn s plug hn hs hp
   exact ⟨h.1, h.2.2⟩
 
 /-! ## A6  foreachplug / foreachnode -/
